@@ -295,3 +295,28 @@ def d_q(d):
 
 def replay(ctx, data):
     print(data)
+    inp = data.get("input")
+    if isinstance(inp, list) and len(inp) == 2 and inp[0] in ("summary", "url", "attendee", "xprop", "category", "param", "paramlist"):
+        import icalendar
+        from icalendar import vCalAddress
+        slot, s = inp
+        ev = icalendar.Event()
+        ev.add("uid", "u1")
+        if slot == "summary":
+            ev.add("summary", s)
+        elif slot == "url":
+            ev.add("url", s)
+        elif slot == "attendee":
+            ev.add("attendee", s)
+        elif slot == "xprop":
+            ev.add("x-foo", s, parameters={"X-A": "1"})
+        elif slot == "category":
+            ev.add("categories", ["a", s, "b"])
+        elif slot == "param":
+            ev.add("attendee", vCalAddress("mailto:a@b"), parameters={"CN": s, "ROLE": "r"})
+        else:
+            ev.add("attendee", vCalAddress("mailto:a@b"), parameters={"MEMBER": ["m1", s, "m2"], "ROLE": "r"})
+        text = ev.to_ical()
+        print("serialised:", text)
+        print("from_ical(text)               :", shape(icalendar.Event.from_ical(text)))
+        print("from_ical(text, multiple=True):", [shape(x) for x in icalendar.Event.from_ical(text, multiple=True)])
